@@ -57,7 +57,41 @@ class IterOnly(object):
         return iter(self._rows)
 
 
-FORMS = ["lists", "tuples", "list-of-tuples", "tuple-header", "iteronly", "iteronly-tuples"]
+class SeqRow(object):
+    """A data row that is a sequence but neither a list nor a tuple (like a DB driver's row object): len(), indexing,
+    slicing (gives a tuple, as sqlite3.Row does), iteration, equality with any sequence of the same cells."""
+
+    __slots__ = ("_c",)
+
+    def __init__(self, cells):
+        self._c = tuple(cells)
+
+    def __len__(self):
+        return len(self._c)
+
+    def __getitem__(self, i):
+        return self._c[i]
+
+    def __iter__(self):
+        return iter(self._c)
+
+    def __eq__(self, o):
+        try:
+            return tuple(o) == self._c
+        except TypeError:
+            return False
+
+    def __ne__(self, o):
+        return not self.__eq__(o)
+
+    def __hash__(self):
+        return hash(self._c)
+
+    def __repr__(self):
+        return "SeqRow(%r)" % (self._c,)
+
+
+FORMS = ["lists", "tuples", "list-of-tuples", "tuple-header", "iteronly", "iteronly-tuples", "seqrows"]
 
 
 def shape(table, form):
@@ -73,4 +107,6 @@ def shape(table, form):
         return IterOnly([list(r) for r in table])
     if form == "iteronly-tuples":
         return IterOnly(tuple(tuple(r) for r in table))
+    if form == "seqrows":
+        return [list(table[0])] + [SeqRow(r) for r in table[1:]] if table else table
     return table
